@@ -77,7 +77,7 @@ def generate(seed, tier):
     s = st.schedule
     if w.random() < 0.03:
         # scaffold-rich assembly for the contig-per-process mode (small contigs adding up to more than one job size)
-        genome, frags = tw.many_small_contigs(w, method)
+        genome, frags = tw.many_small_contigs(w, method, n=w.choice([None, None, None, w.randint(205, 260)]))
         return {'params': params, 'genome': genome, 'workload': frags,
                 'modes': [{'mp': False, 'name': 'S'}, {'mp': True, 'name': 'P', 'width': s.randint(1, 8), 'schedule': {'policy': 'seeded'}, 'seed': seed + 'P'}]}
     modes = [{'mp': False, 'name': 'S'},
